@@ -15,11 +15,11 @@ claim("C17", "exploration",
       "bounded-exhaustive enumeration + proptest random generation with round-trip and differential (bash) oracles; thorough tier adds a coverage-guided libFuzzer campaign (fuzz_args, round-trip oracle inside the target)", "DESIGN.md 4 C17")
 
 claim("C01", "exploration",
-      "Generated trees (near-duplicate pairs differing in one byte at stage-boundary offsets, sizes straddling prefix / 64 KiB buffer / suffix threshold, hard links, symlinks) x generated group configurations (7 hash functions, cache cold+warm, shrinking/keeping/expanding transforms in 5 I/O modes, prefix/suffix knobs, pinned SSD/HDD/unknown, thread specs, -H/-S/-L, rf-over/rf-under/unique, roots as arguments or through --stdin); every reported path is read back by the harness and compared byte for byte, group length checked. A sample of the configuration space per run, shrunk counterexamples; no claim outside the explored cases.",
+      "Generated trees (near-duplicate pairs differing in one byte at stage-boundary offsets, sizes straddling prefix / 64 KiB buffer / suffix threshold, hard links, symlinks) x generated group configurations (7 hash functions, cache cold+warm, shrinking/keeping/expanding transforms in 5 I/O modes, prefix/suffix knobs, pinned SSD/HDD/unknown, thread specs, -H/-S/-L, rf-over/rf-under/unique, roots as arguments or through --stdin, twin tmpfs file systems with equal inode numbers, roots on devices of different kind, O_NOATIME refused); every reported path is read back by the harness and compared byte for byte, group length checked. A sample of the configuration space per run, shrunk counterexamples; no claim outside the explored cases.",
       "Trusts: harness file reads, native re-implementation of the deterministic helper transforms (self-tested against the helper programs), the disk-kind pin hook. --skip-content-hash excluded by statement.",
       "proptest-generated trees and configurations driving the real binary; oracle = direct byte comparison of reported members", "DESIGN.md 4 C01")
 claim("C03", "exploration",
-      "Generated trees with shared contents over several directories/roots, hard links, overlapping and repeated roots given as arguments or through --stdin, path pairs whose components concatenate identically, x configurations (rf-over/rf-under/unique, transform, cache, hash fn, stage knobs, pinned device); report compared as a set of path-sets against a reference content partition + documented replica rule computed by the harness from its own walk. Detects missing, split, merged, duplicated and unselected entries within the explored sample.",
+      "Generated trees with shared contents over several directories/roots, hard links, overlapping and repeated roots given as arguments or through --stdin, path pairs whose components concatenate identically, twin tmpfs file systems whose files have equal inode numbers, the second root on another device (root disk = HDD, or a loop device backed by tmpfs = SSD) with the disk kind not pinned, every O_NOATIME open refused with EPERM by the interposer (a user who does not own the files), x configurations (rf-over/rf-under/unique, transform, cache, hash fn, stage knobs, pinned device); report compared as a set of path-sets against a reference content partition + documented replica rule computed by the harness from its own walk. Detects missing, split, merged, duplicated and unselected entries within the explored sample.",
       "Trusts the reference walk/partition model (plain names: no hidden files, ignore files or patterns - those are C09's) and the disk-kind pin hook.",
       "proptest-generated trees/configurations; oracle = reference model (content partition + replica rule) compared set-wise", "DESIGN.md 4 C03")
 
@@ -28,11 +28,11 @@ claim("C06", "exploration",
       "Trusts the reference replica-count model written from README section 'Handling links' and --help; root arguments are directories.",
       "proptest generation; oracle = reference replica-count model + metamorphic relation over root spellings", "DESIGN.md 4 C06")
 claim("C13", "exploration",
-      "Generated trees of 20-150 files; report body must be byte-identical across repetitions, 5-7 thread-pool specifications (incl. all pools of size 1 and 64 and 0=auto), root permutations and --stdin; a second generator checks order independence of the walk (small trees with file/directory symlinks and cycles, overlapping/repeated roots, -L/-S/--depth/--hidden/-H, --rf-over 0: identical body for permuted, reversed and --stdin roots and for size-1 and default pools); partition identical across hash functions, prefix/suffix sizes, pinned device kinds and cache; every run must exit - a run past the watchdog is a violation only when proven hung (no syscalls, no voluntary context switches, no children for 5 s), otherwise inconclusive (exit 2).",
+      "Generated trees of 20-150 files; report body must be byte-identical across repetitions, 5-7 thread-pool specifications (incl. all pools of size 1 and 64 and 0=auto), root permutations and --stdin; 3 runs under schedule perturbation (the interposer yields or sleeps at pseudo-randomly chosen libc calls); a second generator checks order independence of the walk (small trees with file/directory symlinks and cycles, overlapping/repeated roots, -L/-S/--depth/--hidden/-H, --rf-over 0: identical body for permuted, reversed and --stdin roots and for size-1 and default pools); partition identical across hash functions, prefix/suffix sizes, pinned device kinds and cache; every run must exit - a run past the watchdog is a violation only when proven hung (no syscalls, no voluntary context switches, no children for 5 s), otherwise inconclusive (exit 2).",
       "Hangs and order nondeterminism are only seen under schedules the OS produces during the run; watchdog 25 s vs ~20 ms normal run time.",
       "proptest generation; metamorphic oracle over tuning knobs, thread pools, root order, repetition; quiescence-based hang detection", "DESIGN.md 4 C13")
 claim("C14", "exploration",
-      "Generated trees (hostile names, hard-link sets, 1-3 roots) x configurations; each case runs group in text/JSON/CSV/fdupes and with -o; header totals, per-group counts, redundant/missing (recomputed from the listed groups by the reference sub-grouping rule), ordering by size, absolute paths, isolate-root contiguity, cross-format agreement (independent harness parsers) and -o == stdout (also when the -o file already holds a longer, older report) are asserted; roots are given in sorted and non-sorted order.",
+      "Generated trees (hostile names, hard-link sets, 1-3 roots) x configurations; each case runs group in text/JSON/CSV/fdupes and with -o; header totals, per-group counts, redundant/missing (recomputed from the listed groups by the reference sub-grouping rule), ordering by size, absolute paths, isolate-root contiguity, cross-format agreement (independent harness parsers) and -o == stdout (also when the -o file already holds a longer, older report) are asserted; roots are given in sorted and non-sorted order, partly nested (a sub-directory of the first root in front of it); swapping the inodes behind two names that differ only in invalid UTF-8 bytes must not change the body; the -o run is repeated with stdout on a pseudo-terminal.",
       "Trusts the harness parsers (documented writer format) and the reference sub-grouping rule.",
       "proptest generation; oracle = invariants over the report + differential across the four output formats", "DESIGN.md 4 C14")
 
@@ -45,7 +45,7 @@ claim("C08", "exploration",
       "Reference rule written from --help/README; sub-groups whose members disagree on a sort key skip the exact comparison (undocumented aggregation); glob semantics from the reference matcher.",
       "proptest generation; oracle = reference model of the keep/drop rule compared with inventory diffs", "DESIGN.md 4 C08")
 claim("C11", "exploration",
-      "Generated scenarios as C02 (one report in five from `group --transform 'head -c 3'`, so that group members differ in size) x remove/link/link --soft/move: three dry runs with different rayon pool sizes must print identical scripts (modulo temp suffix) in report order; operations parsed from the script must equal the changes of a real run (set, kind, summary counts and bytes); for remove/link/link --soft the script is executed by bash on an identically rebuilt tree and the resulting tree must equal the real run's (paths, types, bytes, symlink targets, hard-link partition).",
+      "Generated scenarios as C02 (one report in five from `group --transform 'head -c 3'`, so that group members differ in size) x remove/link/link --soft/move: three dry runs with different rayon pool sizes plus one under schedule perturbation by the interposer must print identical scripts (modulo temp suffix) in report order; operations parsed from the script must equal the changes of a real run (set, kind, summary counts and bytes); a non-empty script sent to /dev/full must not exit 0; for remove/link/link --soft the script is executed by bash on an identically rebuilt tree and the resulting tree must equal the real run's (paths, types, bytes, symlink targets, hard-link partition).",
       "Open known findings for --symbolic-links combined with --isolate / cross-device move. `dedupe` not compared (reflink unsupported here). atime-based priorities replaced (reads between runs change atimes).",
       "proptest generation; differential oracle: dry-run script vs real run vs bash execution of the script", "DESIGN.md 4 C11")
 claim("C18", "exploration",
@@ -71,21 +71,21 @@ claim("C05", "fault_enumeration",
       "Faults and kills happen at libc call boundaries; FICLONE success is emulated by the interposer (a model of a reflink file system, not fclones code); raw syscalls would escape the interposer (the import table shows none for file operations).",
       "fault enumeration: recorded call sequence x {kill before, kill after, errno, double fault} on proptest-generated scenarios; state-based oracle", "DESIGN.md 4 C05")
 claim("C07", "exploration",
-      "Generated trees x group with every transform I/O mode, --no-copy, --in-place, --cache (XDG_CACHE_HOME private / unset / empty / relative), -o, link options, working directory outside or inside the scanned tree, and helper programs that read all/part/none of the input, fail, or never open $OUT; and all five dedupe operations with --dry-run. Strict inventory equality (paths, bytes, inodes, link counts, symlink targets, mtimes, modes), zero mutating libc calls below the scanned tree in the LD_PRELOAD trace of fclones and its children, and no fclones-* leftovers in TMPDIR.",
+      "Generated trees x group with every transform I/O mode, --no-copy, --in-place, --cache (XDG_CACHE_HOME private / unset / empty / relative), -o, link options, working directory outside or inside the scanned tree, and helper programs that read all/part/none of the input, fail, never open $OUT, or rewrite the file they are given as $IN (only without --no-copy, where that is fclones' private copy), with the k-th mutating call below TMPDIR failing (ENOSPC/EIO) in a quarter of the $IN / --in-place cases; and all five dedupe operations with --dry-run. Strict inventory equality (paths, bytes, inodes, link counts, symlink targets, mtimes, modes), zero mutating libc calls below the scanned tree in the LD_PRELOAD trace of fclones and its children, and no fclones-* leftovers in TMPDIR.",
       "Mutations observed at libc level; helpers never write to $IN so any input change is fclones' own.",
       "proptest generation; oracle = inventory equality + system-call trace invariant (LD_PRELOAD interposer)", "DESIGN.md 4 C07")
 
 claim("C15", "fault_enumeration",
-      "Read-side libc calls (stat, lstat, open, n-th read, opendir, n-th readdir, readlink, FIEMAP) of a clean `group` run are recorded per tree entry; for every entry below the roots, every recorded occurrence and every applicable errno (EACCES, EIO, ENOENT) one run is made with that call failing, plus sampled pairs and walk-time failures of the input paths themselves. Metamorphic oracle: report equals a clean run on the tree with the affected entry (file incl. its hard links, sub-tree, or not-yet-listed children) physically removed, in any admissible combination for tolerated metadata failures; exit 0; warning unless ENOENT; a file whose read failed is in no group.",
+      "Read-side libc calls (stat, lstat, open, n-th read, opendir, n-th readdir, readlink, FIEMAP) of a clean `group` run are recorded per tree entry; for every entry below the roots, every recorded occurrence and every applicable errno (EACCES, EIO, ENOENT) one run is made with that call failing, plus sampled pairs, the same n-th read failing in both files of every equal-length pair (also under --skip-content-hash), repeated roots, walk-time failures of the input paths themselves, and a second generator with ignore files on several levels, hidden names and symlinks. After a faulted --cache run the next fault-free run on the same cache must equal the clean run. Metamorphic oracle: report equals a clean run on the tree with the affected entry (file incl. its hard links, sub-tree, or not-yet-listed children) physically removed, in any admissible combination for tolerated metadata failures; exit 0; warning unless ENOENT; a file whose read failed is in no group.",
       "Faults are injected at libc level by path and occurrence (schedule independent). Complete over the recorded calls of each explored scenario (occurrences capped at 6-8 per function and path); scenarios are sampled.",
       "fault enumeration over recorded read-side calls on proptest-generated scenarios; metamorphic oracle (faulted run == clean run without the entry)", "DESIGN.md 4 C15")
 
 claim("C04", "exploration",
-      "Generated histories: scenario tree; `group --threads 1` paused by the LD_PRELOAD interposer at a generated open-for-read (before a file's first read, between its prefix and content reads, after all hashing); 1-3 ordinary edits (same-length rewrite, other length, append, truncate, delete, recreate, replace by dir/symlink, touch) during the pause or after `group`; then remove/link/link --soft/move/dedupe; group and dedupe under independently drawn time zones. Oracle: every content present just before the dedupe run still exists afterwards and every processed file's current content is retained in an untouched file.",
+      "Generated histories: scenario tree; `group --threads 1` paused by the LD_PRELOAD interposer at a generated open-for-read (before a file's first read, between its prefix and content reads, after all hashing); 1-3 ordinary edits (same-length rewrite - also through a symlink that is itself a group member reported with -S -, other length, append, truncate, delete, recreate, replace by dir/symlink, touch) during the pause or after `group`, aimed mostly at members of reported groups; then remove/link/link --soft/move/dedupe; group and dedupe under independently drawn time zones. Oracle: every content present just before the dedupe run still exists afterwards and every processed file's current content is retained in an untouched file.",
       "Edits kept >= 30 ms away from fclones' clock reads (tick-granular kernel mtimes); pause granularity is a libc call; mtime-preserving replacement excluded by statement.",
       "proptest-generated histories with schedule control (pause points) ; oracle = inventory invariants around the dedupe run", "DESIGN.md 4 C04")
 claim("C12", "exploration",
-      "Generated histories of 1-6 (edits ; run) steps over files sharing long prefixes/suffixes: in-place same-length rewrites with a newer or an older mtime, copies of other files' content, append/truncate with or without mtime change, rename, delete+recreate (inode reuse on ext4, counted), hard links, SIGKILL of a running cached group; options change on some steps (incl. the same transform program with other arguments). After every step the cached run (cold and warm) must print byte-identical report bodies (hashes, statistics, groups) to the uncached run with the same options.",
+      "Generated histories of 1-6 (edits ; run) steps over files sharing long prefixes/suffixes: in-place same-length rewrites with a newer or an older mtime, copies of other files' content, append/truncate with or without mtime change, rename, delete+recreate (inode reuse on ext4, counted), hard links, SIGKILL of a running cached group, a same-length rewrite applied while a cached run is blocked by the interposer at a read-side call on that very file, creation of the key file without which the `needkey` transform fails after partial output, twin tmpfs file systems with equal inode numbers / lengths / mtimes and different bytes; options change on some steps (incl. the same transform program with other arguments). After every step the cached run (cold and warm) must print byte-identical report bodies (hashes, statistics, groups) to the uncached run with the same options.",
       "Premise of the property is enforced by the harness: every content change gets a fresh mtime (1 ms logical clock forwards, or a fresh value below all earlier ones) or a different length.",
       "proptest-generated histories; differential oracle against the uncached tool", "DESIGN.md 4 C12")
 
